@@ -154,8 +154,34 @@ func (m *storeModel) isRootIDExpr(f *kit.Func, e ast.Expr) bool {
 			}
 			if r, ok := x.(*ast.ReturnStmt); ok {
 				n++
-				if len(r.Results) != 1 || !m.isRootIDExpr(cf, r.Results[0]) {
+				if len(r.Results) != 1 {
 					all = false
+				} else if !m.isRootIDExpr(cf, r.Results[0]) {
+					// a local assigned exactly once from the cached field (copy under the lock)
+					okLocal := false
+					if o := kit.ObjOf(cf.Info(), r.Results[0]); o != nil {
+						defs := 0
+						var def ast.Expr
+						ast.Inspect(cf.Body, func(y ast.Node) bool {
+							if as, ok := y.(*ast.AssignStmt); ok && len(as.Lhs) == len(as.Rhs) {
+								for i, l := range as.Lhs {
+									if kit.ObjOf(cf.Info(), l) == o {
+										defs++
+										def = as.Rhs[i]
+									}
+								}
+							}
+							return true
+						})
+						if defs == 1 {
+							if sel, ok := ast.Unparen(def).(*ast.SelectorExpr); ok && kit.ObjOf(cf.Info(), sel) == types.Object(m.rootField) {
+								okLocal = true
+							}
+						}
+					}
+					if !okLocal {
+						all = false
+					}
 				}
 			}
 			return true
